@@ -731,4 +731,90 @@ theorem runSyncs_regs (g : Mgr) (msgs : List Msg) (m : Nat) (h : SyncsNotFrom m 
     | alive _ _ => exact absurd h (by simp [SyncsNotFrom])
     | addPeer _ => exact absurd h (by simp [SyncsNotFrom])
 
+/-! ### re-delivery after local events -/
+
+theorem join_absorb {r : Option Reg} {x : Reg} (h : OLe (some x) r) : join r (some x) = r := by
+  rw [join_comm']; exact join_of_le h
+
+/-- merging registers that are all dominated by the stored one changes nothing -/
+theorem joinList_absorb (r : Option Reg) (l : List Reg) (h : ∀ x ∈ l, OLe (some x) r) :
+    joinList r l = r := by
+  induction l with
+  | nil => rfl
+  | cons x xs ih =>
+    rw [joinList_cons, join_absorb (h x (by simp))]
+    exact ih (fun y hy => h y (by simp [hy]))
+
+theorem run_append (s : State) (a b : List Op) : run s (a ++ b) = run (run s a) b := by
+  unfold run; rw [List.foldl_append]
+
+theorem seen_append (s : State) (a b : List Op) : seen s (a ++ b) = seen s a ++ seen (run s a) b := by
+  induction a generalizing s with
+  | nil => rfl
+  | cons o os ih =>
+    have hr : run s (o :: os) = run (apply s o) os := rfl
+    simp only [List.cons_append, seen, ih, List.append_assoc, hr]
+
+theorem admissible_append {s : State} {a b : List Op} (ha : Admissible s a)
+    (hb : Admissible (run s a) b) : Admissible s (a ++ b) := by
+  induction a generalizing s with
+  | nil => exact hb
+  | cons o os ih => exact ⟨ha.1, ih ha.2 hb⟩
+
+/-- the four guarded local events: the member they act on and the health they record -/
+def localTarget : Op → Option (Nat × Health)
+  | .suspect m _ => some (m, .degraded)
+  | .fail m => some (m, .failed)
+  | .refute m _ => some (m, .healthy)
+  | .markHealthy m => some (m, .healthy)
+  | _ => none
+
+/-- a local event that returned `true` wrote a register with the fresh stamp `clock + 1` -/
+theorem localOp_emitted {c : Reg → Prop} [DecidablePred c] {f : Reg → Nat → Reg} (s : State) (m : Nat)
+    (h : emittedLocal (localOp c f s m) m ≠ []) :
+    ∃ e, s.regs m = some e ∧ c e ∧ (localOp c f s m).1.regs m = some (f e (s.clock + 1)) ∧
+      emittedLocal (localOp c f s m) m = [⟨m, f e (s.clock + 1)⟩] := by
+  rcases localOp_cases c f s m with h' | ⟨e, he, hc, h'⟩
+  · rw [h'] at h; simp [emittedLocal] at h
+  · refine ⟨e, he, hc, ?_, ?_⟩ <;> rw [h'] <;> simp [emittedLocal, setReg_same]
+
+/-! ### the manager keeps the clock invariant -/
+
+theorem wf_clock_mono {s : State} (h : WF s) (c : Nat) (hc : s.clock ≤ c) : WF { s with clock := c } :=
+  fun m e he => Nat.le_trans (h m e he) hc
+
+theorem syncTime_wf {s : State} (h : WF s) (t : Nat) : WF (syncTime s t) :=
+  wf_clock_mono h _ (by omega)
+
+theorem mgr_new_wf (loc maxDelta : Nat) : WF (Mgr.new loc maxDelta).st :=
+  apply_wf wf_empty (.updateLocal loc .healthy 0)
+
+theorem mgr_handle_wf (g : Mgr) (h : WF g.st) (x : Msg) : WF (g.handle x).st := by
+  cases x with
+  | sync s b t =>
+    simp only [Mgr.handle, Mgr.handleSync]
+    exact merge_wf (merge_wf (syncTime_wf h t) _) _
+  | suspect m i =>
+    simp only [Mgr.handle, Mgr.handleSuspect]
+    split
+    · exact h
+    · split
+      · exact h
+      · exact apply_wf h (.suspect m i)
+  | alive m i =>
+    simp only [Mgr.handle]
+    cases handleAlive_st g m i with
+    | inl h' => rw [h']; exact h
+    | inr h' => rw [h']; exact apply_wf h (.refute m i)
+  | addPeer p =>
+    simp only [Mgr.handle, Mgr.addPeer]
+    cases g.st.regs p with
+    | some _ => exact h
+    | none => exact merge_wf (wf_clock_mono h _ (Nat.le_succ _)) _
+
+theorem mgr_run_wf (g : Mgr) (h : WF g.st) (msgs : List Msg) : WF (g.run msgs).st := by
+  induction msgs generalizing g with
+  | nil => exact h
+  | cons x xs ih => exact ih (g.handle x) (mgr_handle_wf g h x)
+
 end Neumann.Gossip
